@@ -308,6 +308,24 @@ pub fn walk_node_for_targets(targets: &HashSet<Target>, node: Node) -> Vec<Node>
                         ));
                     }
                 }
+                //Walk modifier and base constructor arguments for targets
+                for attribute in box_function_definition.attributes {
+                    match attribute {
+                        pt::FunctionAttribute::BaseOrModifier(_, base) => {
+                            if base.args.is_some() {
+                                for arg in base.args.unwrap() {
+                                    matches.append(&mut walk_node_for_targets(targets, arg.into()));
+                                }
+                            }
+                        }
+
+                        pt::FunctionAttribute::NameValue(_, _, expression) => {
+                            matches.append(&mut walk_node_for_targets(targets, expression.into()));
+                        }
+                        _ => {}
+                    }
+                }
+
                 //Walk return params for targets
                 for (_, option_parameter) in box_function_definition.returns {
                     if option_parameter.is_some() {
@@ -402,6 +420,24 @@ pub fn walk_node_for_targets(targets: &HashSet<Target>, node: Node) -> Vec<Node>
                         ));
                     }
                 }
+                //Walk modifier and base constructor arguments for targets
+                for attribute in box_function_definition.attributes {
+                    match attribute {
+                        pt::FunctionAttribute::BaseOrModifier(_, base) => {
+                            if base.args.is_some() {
+                                for arg in base.args.unwrap() {
+                                    matches.append(&mut walk_node_for_targets(targets, arg.into()));
+                                }
+                            }
+                        }
+
+                        pt::FunctionAttribute::NameValue(_, _, expression) => {
+                            matches.append(&mut walk_node_for_targets(targets, expression.into()));
+                        }
+                        _ => {}
+                    }
+                }
+
                 //Walk return params for targets
                 for (_, option_parameter) in box_function_definition.returns {
                     if option_parameter.is_some() {
